@@ -3,7 +3,8 @@
 Leg D: spec/Route/Route.tla - the dispatch scan with a backtracking matcher over every option list of
        the bounded family x every request x methods (FirstMatch, NoPrefix, MatcherAgrees) and every
        mapper chain of depth <= 3 x key forms x parameters (MapThenRoute); seeded faults of the model
-       (regex_search, reverse scan, case-insensitive method, wrong parent parameter) must be caught.
+       (regex_search, reverse scan, case-insensitive method, wrong parent parameter, "$" as end anchor) must be caught;
+       mount points (capture-less / capturing regex_match overloads) are modelled too (PoolWhole).
 Leg B: harness/route/route_drv.cpp builds real application trees / mount points over a cppcms::service
        (real booster::regex), dispatches and maps; every observation must equal what
        spec/Route/RouteRef.tla computes from the logged configuration (RouteTrace.tla).
@@ -44,7 +45,7 @@ def describe(evline, ex):
                 pass
     hits = [(h["app"], h["id"], [_b(a) for a in h["args"]]) for h in e.get("hits", [])]
     if e.get("e") == "Req":
-        return "dispatch %s %r -> hits=%s status=%s%s" % (e["m"], _b(e["p"]), hits, e["st"], cfg[:1500])
+        return "dispatch %r %r -> hits=%s status=%s%s" % (e["m"], _b(e["p"]), hits, e["st"], cfg[:1500])
     if e.get("e") == "Map":
         return "map from node %s key %r params=%s -> ok=%s url=%r; routed (%s): hits=%s status=%s (key belongs to node %s handler %s)%s" % (
             e["app"], e["key"], [_b(p) for p in e["params"]], e["ok"], _b(e["url"]), e.get("m"), hits, e["st"], e["tapp"], e["tid"], cfg[:1500])
@@ -60,7 +61,7 @@ def signature(evline):
         return "end-of-trace"
     k = e.get("e")
     if k == "Req":
-        return "route:%s:hits=%d:st%s" % (e["m"], len(e["hits"]), e["st"])
+        return "route:%s:hits=%d:st%s" % (json.dumps(e["m"])[1:-1], len(e["hits"]), e["st"])
     if k == "Map":
         return "map:ok=%s:hits=%d" % (str(e["ok"]).lower(), len(e["hits"]))
     if k == "PReq":
@@ -76,7 +77,9 @@ def run(ctx):
         "'rest' = ((?:/.*)?) / (/.*)?; every group is delimited by '/' literals; an ambiguous split makes the spec silent (none occurs)",
         "the regex text given to booster::regex is generated from the logged abstract pattern by the harness (regex_text)",
         "handlers take std::string parameters (typed url parameters that fail to parse fall through to the next handler by design - not driven)",
-        "paths contain no NUL / CR / LF (DESIGN.md section 6 F10: option::matches passes path.c_str(); API-level only)",
+        "request strings contain no NUL (DESIGN.md section 6 F10: option::matches passes path.c_str(); API-level only); CR and LF ARE driven: "
+        "a word of a language followed by a line end (+ more text) in path-info, script-name, host and method must not match "
+        "('.' does not match LF, as in PCRE's default)",
         "MapThenRoute presupposes that dispatcher regex and mapper template come from the same abstract pattern, parameters lie in the group "
         "languages and URLs of mounted children are empty or start with '/'; an earlier registration that also matches the URL legitimately shadows the target",
         "a mount never falls back to later options of the parent when the child answers 404 (as in the code; the property's 'first mount point, then first handler')",
@@ -86,9 +89,10 @@ def run(ctx):
 
     def leg_d():
         ctx.design("Route/Route.tla", "Route_quick.cfg" if q else "Route.cfg", workers=W, timeout=1700, heap="6g", deadlock_off=True, extra=X,
-                   note="every level option list (<=2 handlers, <=1 mount, 9 handler kinds, 2 mount patterns) x requests x 3 methods; mapper chains depth<=3")
+                   note="every level option list (<=2 handlers, <=1 mount, 9 handler kinds, 2 mount patterns) x requests (incl. word+LF) x methods (incl. GET+LF); mapper chains depth<=3; mount points x host/script/path incl. line ends")
         for cfg, inv in (("Route_mut_search.cfg", "MatcherAgrees"), ("Route_mut_reverse.cfg", "FirstMatch"),
-                         ("Route_mut_icase.cfg", "FirstMatch"), ("Route_mut_wrongparam.cfg", "MapThenRoute")):
+                         ("Route_mut_icase.cfg", "FirstMatch"), ("Route_mut_wrongparam.cfg", "MapThenRoute"),
+                         ("Route_mut_dollar.cfg", "NoPrefix")):
             ctx.design("Route/Route.tla", cfg, workers=W, timeout=900, deadlock_off=True, extra=X, expect_violation=inv, count=False,
                        note="self-test: seeded fault in the model must violate " + inv)
 
